@@ -3,7 +3,7 @@
 # Applies a patch (or the reverse of a /repo commit with -R) to /repo's working tree, runs the checks, restores.
 REV=""
 if [ "$1" = "-R" ]; then REV="-R"; shift; fi
-P="$1"; shift
+P="$1"; shift; case "$P" in /*) ;; *) [ -f "/verif/$P" ] && P="/verif/$P";; esac
 cd /repo || exit 2
 if [ -n "$(git status --porcelain --untracked-files=no)" ]; then echo "repo dirty, refusing"; exit 2; fi
 if [ -f "$P" ]; then git apply $REV "$P" || { echo "patch does not apply"; exit 2; }
